@@ -140,7 +140,8 @@ class NodeWorld:
 
         def ct(conn):
             self.timer_checks.append((self.world.now, conn.ident))
-            self.world.obs("timer_check", conn.ident, conn.state)
+            fs = node.peer_sockets.get(conn.ident)
+            self.world.obs("timer_check", fs.sid if fs is not None else -1, conn.state)
             return orig_ct(conn)
         node._check_timers = ct
         self.clients = []           # environment-side handles of accepted sockets
